@@ -66,6 +66,13 @@ def attach (f : Fib) (p : Name) (h : Option Hid) : Except PyErr Fib :=
 def detach (f : Fib) (p : Name) : Except PyErr Fib :=
   if PyDict.contains f p then .ok (PyDict.erase f p) else .error .keyError
 
+/-- legacy `NDNApp.unregister(name)` (the coroutine): `try: del trie[name] except KeyError: pass` - a prefix
+    registered without a callback has no entry; the command is sent all the same (property C17) -/
+def unregisterV1 (f : Fib) (p : Name) : Fib :=
+  match detach f p with
+  | .ok f' => f'
+  | .error _ => f
+
 /-- `trie.longest_prefix(n)`: prefixes of `n` from length `k` downwards, first one with a value. -/
 def scan (f : Fib) (n : Name) : Nat → Option (Name × Node)
   | 0 => (PyDict.get? f []).map fun nd => ([], nd)
